@@ -504,7 +504,11 @@ class State:
         return State(self.env, self.cases)
 
     def sub(self, expr):
-        return simplify_subscript(subst(expr, self.env))
+        e = subst(expr, self.env)
+        if any(isinstance(n, ast.Call) and isinstance(n.func, ast.Lambda)
+               for n in ast.walk(e)):
+            e = beta_reduce(e)
+        return simplify_subscript(e)
 
     def lin(self, expr):
         return to_lin(self.sub(expr))
@@ -798,6 +802,14 @@ class Walker:
                 self.walk_function(st, state)
             s = state.copy()
             s.env.pop(st.name, None)
+            lam = simple_function_as_lambda(st)
+            if lam is not None:
+                # a helper whose body is straight-line code + one return is
+                # available for inlining at its call sites
+                shadow = {a.arg for a in st.args.args}
+                env2 = {k: v for k, v in s.env.items() if k not in shadow}
+                lam.body = subst(lam.body, env2)
+                s.env[st.name] = lam
             return s
         if isinstance(st, ast.Assign):
             s = state.copy()
@@ -897,3 +909,45 @@ def single_assign_env(fnode, keep=()):
 
 def inlined(expr, fnode, keep=()):
     return subst(expr, single_assign_env(fnode, keep))
+
+
+def simple_function_as_lambda(fnode):
+    """def f(a, b): <single assignments>; return expr  ->  lambda a, b: expr
+    with the assignments inlined; None if the body is anything else."""
+    if fnode.args.vararg or fnode.args.kwarg or fnode.args.kwonlyargs or \
+            fnode.args.defaults:
+        return None
+    env = {}
+    ret = None
+    for st in fnode.body:
+        if isinstance(st, ast.Expr) and isinstance(st.value, ast.Constant):
+            continue
+        if isinstance(st, ast.Assert):
+            continue
+        if isinstance(st, ast.Assign) and len(st.targets) == 1 and \
+                isinstance(st.targets[0], ast.Name) and ret is None:
+            env[st.targets[0].id] = subst(st.value, env)
+            continue
+        if isinstance(st, ast.Return) and st.value is not None and \
+                ret is None:
+            ret = subst(st.value, env)
+            continue
+        return None
+    if ret is None:
+        return None
+    return ast.Lambda(args=fnode.args, body=ret)
+
+
+def beta_reduce(expr):
+    """(lambda a, b: body)(x, y) -> body[a:=x, b:=y], repeatedly."""
+    class B(ast.NodeTransformer):
+        def visit_Call(self, node):
+            self.generic_visit(node)
+            if isinstance(node.func, ast.Lambda) and not node.keywords and \
+                    len(node.args) == len(node.func.args.args) and not any(
+                        isinstance(a, ast.Starred) for a in node.args):
+                m = {p.arg: a for p, a in zip(node.func.args.args,
+                                              node.args)}
+                return subst(node.func.body, m)
+            return node
+    return B().visit(copy.deepcopy(expr))
